@@ -4,7 +4,7 @@
    the implementation's bytes are compared with on every run. *)
 Require Import Coq.Strings.String.
 From Verif Require Import Base.Prim Base.Str Cbor.Codec Cbor.CodecFacts Suit.Py Suit.PyFacts Suit.Ty Suit.Interp Suit.Tables Suit.Digest
-                          Suit.SpecTypes Suit.SpecEnc gen.GenTypes gen.GenSpec.
+                          Suit.Embed Suit.SpecTypes Suit.SpecEnc gen.GenTypes gen.GenSpec.
 Open Scope Z_scope.
 
 (* 1. the grammar tables of the tool ARE the pinned grammar: which member carries which node type, every `bstr .cbor`
@@ -58,6 +58,32 @@ Theorem bstr_cbor_is_one_layer env f t v b :
   to_cbor env (S f) (TCbstr t) v = Ok b -> exists b0, to_cbor env f t v = Ok b0 /\ b = ser (CBytes b0).
 Proof. exact (to_cbor_cbstr env f t v b). Qed.
 Print Assumptions bstr_cbor_is_one_layer.
+
+(* 5. NOTHING DROPPED, DUPLICATED OR REORDERED in a key-value node (any table with distinct ids):
+      (a) from_obj turns the description's members, in description order, into the object's members (one each);
+      (b) to_cbor writes exactly one map entry per member of the object, in that order, under the registered integer, the
+          value being the deserialisation of the member's own serialisation *)
+Theorem description_members_kept_in_order rec m d acc l :
+  kv_from_obj_loop rec m d acc = Ok (VKV l) ->
+  NoDup (map (fun kx => idx_of m (fst kx)) d) ->
+  (forall kx i, In kx d -> idx_of m (fst kx) = Some i -> ~ In i (map fst acc)) ->
+  exists ys, Forall2 (parsed rec m) d ys /\ l = acc ++ ys.
+Proof. exact (kv_from_obj_ordered rec m d acc l). Qed.
+Print Assumptions description_members_kept_in_order.
+
+Theorem kv_from_obj_is_that_loop env hn H u5 fs jl jd sev sp sd f m emb d :
+  from_obj env hn H u5 fs jl jd sev sp sd (S f) (TKeyValue m emb) (CMap d) =
+  kv_from_obj_loop (fun t' o' => from_obj env hn H u5 fs jl jd sev sp sd f t' o') m d [].
+Proof. reflexivity. Qed.
+Print Assumptions kv_from_obj_is_that_loop.
+
+Theorem members_written_in_order env rec m emb l b :
+  NoDup (map key_id m) ->
+  to_cbor_body env rec (TKeyValue m emb) (VKV l) = Ok b -> NoDup (map fst l) ->
+  (forall idx v e, In (idx, v) l -> nth_error m idx = Some e -> key_id e <> -1 /\ key_id e <> -2) ->
+  exists cs, Forall2 (written rec m) l cs /\ b = ser (CMap cs).
+Proof. intros Hids. exact (kv_written_in_order env rec m emb Hids l b). Qed.
+Print Assumptions members_written_in_order.
 
 (* non-vacuity: the specification-side encoder accepts a concrete command sequence and yields flat code/argument pairs *)
 Example spec_command_sequence :
